@@ -180,8 +180,11 @@ def merge_reports(pid, results):
             for s in r.get("samples", []):
                 if len(merged["samples"]) < 8:
                     merged["samples"].append(s)
-            for s in r.get("inconclusive", []):
-                merged["inconclusive"].append(s)
+            if not shard.get("finding"):
+                # (whatever goes wrong in a known-finding shard -- including a hang ended by the
+                # watchdog -- is attributed to that finding, see run_check)
+                for s in r.get("inconclusive", []):
+                    merged["inconclusive"].append(s)
             for s in r.get("notes", []):
                 if s not in merged["notes"] and len(merged["notes"]) < 30:
                     merged["notes"].append(s)
